@@ -239,9 +239,17 @@ class LsmWatch:
         self.saw_tombstone_in_sst = False
         self.saw_immutable = False
         self.max_sst_total = 0
+        self.tombstone_dropped = False
+        self.compaction_requests_while_busy = 0
+        self._tomb_keys: set = set()
+        self._seen_sst: set[int] = set()
+        self._keep: list = []
+        self._flushes = 0
+        self._compacting_prev = 0
         self.observe()
 
-    def observe(self) -> None:
+    def observe(self, compacting: int = 0) -> None:
+        """`compacting` = number of processes currently suspended inside _compact."""
         lsm = self.lsm
         mt = lsm._memtable
         if mt._data:
@@ -262,8 +270,36 @@ class LsmWatch:
                     self.deepest_level_used = li
         if occ > self.max_levels_occupied:
             self.max_levels_occupied = occ
+        if total != self.max_sst_total or True:
+            # new SSTables: remember which keys have a tombstone on disk; a key whose tombstone was on disk and that now has
+            # no entry in any structure had its tombstone dropped by a compaction into the deepest level
+            fresh = False
+            for level in lsm._levels:
+                for sst in level:
+                    if id(sst) not in self._seen_sst:
+                        self._seen_sst.add(id(sst))
+                        self._keep.append(sst)
+                        fresh = True
+                        for k, v in zip(sst._keys, sst._values):
+                            if v is TOMB:
+                                self._tomb_keys.add(k)
+                                self.saw_tombstone_in_sst = True
+            if fresh and not self.tombstone_dropped:
+                for k in self._tomb_keys:
+                    if not lsm_view(lsm, k):
+                        self.tombstone_dropped = True
+                        break
         if total > self.max_sst_total:
             self.max_sst_total = total
+        fl = lsm._total_memtable_flushes
+        if fl != self._flushes:
+            self._flushes = fl
+            # a flush finished in this delivery; if a compaction was already running before it and none was started by it,
+            # its compaction request was turned down by the one-compaction-at-a-time guard
+            if getattr(lsm, "_compaction_in_progress", False) and self._compacting_prev >= 1 and compacting <= self._compacting_prev \
+                    and lsm._compaction_strategy.should_compact(lsm._levels):
+                self.compaction_requests_while_busy += 1
+        self._compacting_prev = compacting
 
     def scan_tombstones(self) -> None:
         if self.saw_tombstone_in_sst:
